@@ -167,6 +167,63 @@ def _find_violation(ex):
     return None
 
 
+def _shard_entry(job, conn):
+    try:
+        res = shard_main(job)
+    except BaseException as ex:  # noqa
+        res = {"shard": job[3], "violations": [], "error": f"{type(ex).__name__}: {ex}", "parts": [], "wall": 0.0}
+    try:
+        conn.send(res)
+    except BaseException as ex:  # noqa
+        try:
+            conn.send({"shard": job[3], "violations": res.get("violations", []), "parts": [],
+                       "error": f"cannot send shard result: {type(ex).__name__}: {ex}", "wall": 0.0})
+        except BaseException:  # noqa
+            pass
+    finally:
+        conn.close()
+
+
+def run_shards(jobs, tier):
+    """One process per shard; a shard that dies or exceeds the wall-clock cap is an inconclusive
+    harness error (exit 2), never a hang and never a violation."""
+    import multiprocessing.connection as mpc
+    ctx = mp.get_context("fork")
+    cap = float(os.environ.get("VERIF_WALL_CAP_S", "2400" if tier == "quick" else "14400"))
+    procs = []
+    for job in jobs:
+        parent, child = ctx.Pipe(duplex=False)
+        p = ctx.Process(target=_shard_entry, args=(job, child), daemon=True)
+        p.start()
+        child.close()
+        procs.append((job, p, parent))
+    results = {}
+    deadline = time.time() + cap
+    pending = {parent: (job, p) for job, p, parent in procs}
+    while pending:
+        left = deadline - time.time()
+        if left <= 0:
+            break
+        ready = mpc.wait(list(pending), timeout=min(left, 5.0))
+        for conn in ready:
+            job, p = pending.pop(conn)
+            try:
+                results[job[3]] = conn.recv()
+            except (EOFError, OSError):
+                p.join(5)
+                results[job[3]] = {"shard": job[3], "violations": [], "parts": [], "wall": 0.0,
+                                   "error": f"shard {job[3]} died without a result (exit code {p.exitcode})"}
+    for conn, (job, p) in pending.items():
+        p.kill()
+        results[job[3]] = {"shard": job[3], "violations": [], "parts": [], "wall": 0.0,
+                           "error": f"shard {job[3]} exceeded the wall-clock cap of {cap:.0f}s (inconclusive)"}
+    for _job, p, _c in procs:
+        p.join(10)
+        if p.is_alive():
+            p.kill()
+    return [results[j[3]] for j in jobs]
+
+
 def hyp_part(name, make, examples, **kw):
     d = {"name": name, "make": make, "examples": examples}
     d.update(kw)
@@ -237,9 +294,7 @@ def main(argv=None):
     if nshards == 1:
         results = [shard_main(jobs[0])]
     else:
-        ctx = mp.get_context("fork")
-        with ctx.Pool(nshards) as pool:
-            results = pool.map(shard_main, jobs, chunksize=1)
+        results = run_shards(jobs, a.tier)
 
     errors = [r["error"] for r in results if r["error"]]
     agg = {}
